@@ -14,10 +14,11 @@ from .c09 import evaluate, shipped_modules
 
 TITLE = "Declared names/symbols bind faithfully; failed definitions change nothing"
 ENTRIES = ["Unit.define", "Unit.alias", "Unit.derive", "Unit.__init__", "Dimension.define", "Dimension.derive",
-           "Dimension.__init__", "Prefix.__init__", "Dimension.unit"]
-# Dimension.scale is deliberately not an entry: its only raise after the definition is translate()'s
-# `scale == zero.unit` guard, which a freshly defined unit cannot satisfy (an infeasible path a
-# path-insensitive rule would report as a false alarm).
+           "Dimension.__init__", "Prefix.__init__", "Dimension.unit", "Dimension.scale"]
+# Dimension.scale defines the unit and then calls translate(); translate()'s `scale == zero.unit` guard
+# cannot fire for a unit that was defined a statement earlier (the zero point was built before it
+# existed), so that one raise is recognised as infeasible (_fresh_unit_guard) - any other raise that
+# translate() may grow is a raise after the registration.
 NAME_ATTRS = ("name", "symbol", "names", "symbols")
 
 
@@ -55,21 +56,54 @@ def _is_plain_init_store(fi: FuncInfo, n: ast.AST) -> bool:
     return plain(v)
 
 
+def _fresh_unit_guard(prog: Program, func: str, node: ast.AST) -> bool:
+    """`if scale == zero.unit: raise` in conversions.translate: scale-versus-the-zero-point's-unit."""
+    if func != "conversions.translate":
+        return False
+    fi = prog.functions[func]
+    ps = fi.params()
+    if len(ps) < 2:
+        return False
+    p = getattr(node, "_parent", None)
+    if not isinstance(p, ast.If) or not any(node is x for x in p.body):
+        return False
+    t = p.test
+    if not (isinstance(t, ast.Compare) and len(t.ops) == 1 and isinstance(t.ops[0], (ast.Eq, ast.Is))):
+        return False
+    sides = {ast.unparse(t.left).replace(" ", ""), ast.unparse(t.comparators[0]).replace(" ", "")}
+    return sides == {ps[0], f"{ps[1]}.unit"}
+
+
 class Summary:
-    def __init__(self, prog: Program, resolver: Resolver) -> None:
+    """Per entry point, over the context-pruned reachable set (arguments such as name=None decide guards in
+    the callees: unit arithmetic inside an error message constructs prefixes, but never names them)."""
+
+    def __init__(self, prog: Program, resolver: Resolver, reach: Optional[Reach] = None) -> None:
         self.prog, self.r = prog, resolver
+        self.reach = reach
         self.wr: Dict[str, bool] = {}
         self.rs: Dict[str, bool] = {}
         self.bad: Dict[str, Optional[Tuple[str, ast.AST, str, ast.AST]]] = {}
+
+    def _feasible(self, q: str, node: ast.AST) -> bool:
+        return self.reach is None or q not in self.reach.reached or self.reach.feasible_node(q, node)
+
+    def _writes(self, q: str) -> List[Write]:
+        return [w for w in naming_writes(self.prog, self.r, q) if self._feasible(q, w.node)]
+
+    def _sites(self, q: str):
+        if self.reach is not None and q in self.reach.reached:
+            return self.reach.sites.get(q, [])
+        return self.r.callsites(q)
 
     def may_write(self, q: str, stack: Tuple[str, ...] = ()) -> bool:
         if q in self.wr:
             return self.wr[q]
         if q in stack:
             return False
-        r = bool(naming_writes(self.prog, self.r, q))
+        r = bool(self._writes(q))
         if not r:
-            for cs in self.r.callsites(q):
+            for cs in self._sites(q):
                 if any(self.may_write(t, stack + (q,)) for t in cs.targets):
                     r = True
                     break
@@ -84,10 +118,11 @@ class Summary:
         fi = self.prog.functions[q]
         r = False
         for x in raise_sites(self.prog, q):
-            if x.kind in ("raise", "assert") and not handlers_around(fi, x.node):
+            if x.kind in ("raise", "assert") and not handlers_around(fi, x.node) and not _fresh_unit_guard(self.prog, q, x.node) \
+                    and self._feasible(q, x.node):
                 r = True
         if not r:
-            for cs in self.r.callsites(q):
+            for cs in self._sites(q):
                 if handlers_around(fi, cs.node):
                     continue
                 if any(self.may_raise(t, stack + (q,)) for t in cs.targets):
@@ -108,17 +143,18 @@ class Summary:
         cfg = CFG(fi.node)
         w_nodes: Dict[int, Tuple[str, ast.AST]] = {}
         r_nodes: Dict[int, Tuple[str, ast.AST]] = {}
-        for w in naming_writes(self.prog, self.r, q):
+        for w in self._writes(q):
             n = cfg.node_of(w.node)
             if n is not None:
                 w_nodes.setdefault(n, (q, w.node))
         for x in raise_sites(self.prog, q):
-            if x.kind in ("raise", "assert") and not handlers_around(fi, x.node):
+            if x.kind in ("raise", "assert") and not handlers_around(fi, x.node) and not _fresh_unit_guard(self.prog, q, x.node) \
+                    and self._feasible(q, x.node):
                 n = cfg.node_of(x.node)
                 if n is not None:
                     r_nodes.setdefault(n, (q, x.node))
         res = None
-        for cs in self.r.callsites(q):
+        for cs in self._sites(q):
             n = cfg.node_of(cs.node)
             if n is None:
                 continue
@@ -347,6 +383,7 @@ def run(rep: Report) -> None:
     rep.rule("R19.4", "anonymous before named: no shipped declaration names a key that was already constructed anonymously "
              "(under every entry module), unless the constructor handles late naming", floor=25)
     rep.rule("R19.5", "uniqueness in shipped tables: no name or symbol is declared for two objects", floor=300)
+    rep.rule("R19.9", "no shipped dimension is declared under two names (a second Dimension.derive of an equal dimension renames the first)", floor=1)
     rep.rule("R19.6", "no memoised function reads the name/symbol registries without being invalidated by their writers", floor=1)
 
     # R19.1
@@ -355,7 +392,7 @@ def run(rep: Report) -> None:
         if q not in prog.functions:
             raise AnalysisError(f"definition entry point {q} not found")
         fi = prog.functions[q]
-        bad = summ.write_then_raise(q)
+        bad = Summary(prog, resolver, Reach(resolver, [q])).write_then_raise(q)
         if bad is None:
             rep.ok("R19.1", q)
         else:
@@ -414,6 +451,12 @@ def run(rep: Report) -> None:
         rep.check("R19.5", k, len(ids) == 1, f"{k} is declared for {len(ids)} different units", "")
     for nm, d in ev.dim_by_name.items():
         rep.ok("R19.5", f"dimension-name:{nm}")
+    # R19.9: one dimension object, one declared name
+    for d, old, new, where in ev.dim_renames:
+        rep.fail("R19.9", f"dimension:{old}->{new}", f"the shipped declaration at {where} derives the dimension already declared as {old!r} again as {new!r} "
+                 f"(structurally equal dimensions are one interned object): Dimension.named({old!r}) still finds it but it now reports {new!r}", where)
+    if not ev.dim_renames:
+        rep.ok("R19.9", "shipped-dimensions", note=f"{len(ev.dim_by_name)} named dimensions, none declared under two names")
     # R19.6 memo over registries (shared with C08)
     from .c08 import NAMING, memo_functions
     n6 = 0
